@@ -2,6 +2,12 @@ package main
 
 // C16 — device grant: tokens only after user approval and only to the initiating client (DESIGN §5 C16).
 
+var deviceAuthBinding = []string{
+	"def($dc, op.NewDeviceCode(op.RecommendedDeviceCodeBytes), 0)", "def($uc, op.NewUserCode(conv(_, $cfg.UserCode.CharSet), $cfg.UserCode.CharAmount, $cfg.UserCode.DashInterval), 0)", "ok(op.NewUserCode(__))",
+	"ok(_.StoreDeviceAuthorization(_, $clientID, $dc, $uc, $expires, $req.Scopes))", "def($expires, time.Now().Add($cfg.Lifetime))",
+	"def($cfg, $o.DeviceAuthorization())",
+}
+
 func init() {
 	const get = "$st.GetDeviceAuthorizatonState(_, $clientID, $deviceCode)"
 	P := []string{"ctx", "clientID", "deviceCode", "exchanger"}
@@ -36,16 +42,18 @@ func init() {
 		{ID: "E1.device.token.server-handler", Fn: "op.(*webServer).deviceTokenHandler", P: []string{"s", "w", "r", "client"}, Kind: "call", Pat: "$s.server.DeviceToken(_, op.newClientRequest($r, $request, $client))", Max: 1,
 			Req: []string{`neq($request.DeviceCode, "")`}},
 		// device authorization response: the stored codes are the returned codes
-		{ID: "E8.device.auth.binding", Fn: "op.createDeviceAuthorization", P: []string{"ctx", "req", "clientID", "o"}, Kind: "store", Max: 1,
+		{ID: "E8.device.auth.binding.store", AltOf: "E8.device.auth.binding", Fn: "op.createDeviceAuthorization", P: []string{"ctx", "req", "clientID", "o"}, Kind: "store", Max: 1,
 			Pat: "store($resp, &DeviceAuthorizationResponse{DeviceCode: $dc, UserCode: $uc, VerificationURI: $v.String(), ExpiresIn: conv(int, $cfg.Lifetime / time.Second), Interval: conv(int, $cfg.PollInterval / time.Second)})",
-			Req: []string{
-				"def($dc, op.NewDeviceCode(op.RecommendedDeviceCodeBytes), 0)", "def($uc, op.NewUserCode(conv(_, $cfg.UserCode.CharSet), $cfg.UserCode.CharAmount, $cfg.UserCode.DashInterval), 0)", "ok(op.NewUserCode(__))",
-				"ok(_.StoreDeviceAuthorization(_, $clientID, $dc, $uc, $expires, $req.Scopes))", "def($expires, time.Now().Add($cfg.Lifetime))",
-				"def($cfg, $o.DeviceAuthorization())",
-			}},
-		{ID: "E8.device.auth.returned", Fn: "op.createDeviceAuthorization", P: []string{"ctx", "req", "clientID", "o"}, Kind: "ret ok", Pat: "ret($resp, nil)", Max: 1,
+			Req: deviceAuthBinding},
+		// the same binding when the response is built in the return statement
+		{ID: "E8.device.auth.binding.ret", AltOf: "E8.device.auth.binding", Fn: "op.createDeviceAuthorization", P: []string{"ctx", "req", "clientID", "o"}, Kind: "ret ok", Max: 1,
+			Pat: "ret(&DeviceAuthorizationResponse{DeviceCode: $dc, UserCode: $uc, VerificationURI: $v.String(), VerificationURIComplete: $v.String(), ExpiresIn: conv(int, $cfg.Lifetime / time.Second), Interval: conv(int, $cfg.PollInterval / time.Second)}, nil)",
+			Req: append([]string{`eq($v.RawQuery, "user_code=" + $uc)`}, deviceAuthBinding...)},
+		{ID: "E8.device.auth.returned.var", AltOf: "E8.device.auth.returned", Fn: "op.createDeviceAuthorization", P: []string{"ctx", "req", "clientID", "o"}, Kind: "ret ok", Pat: "ret($resp, nil)", Not: "ret(&DeviceAuthorizationResponse{}, nil)", Max: 1,
 			Req: []string{"ok(_.StoreDeviceAuthorization(_, $clientID, _, _, _, $req.Scopes))", "eq($resp.VerificationURIComplete, _)"}},
-		{ID: "E8.device.auth.response-built-once", Fn: "op.createDeviceAuthorization", Kind: "store", Pat: "store(_, &DeviceAuthorizationResponse{})", Max: 1},
+		{ID: "E8.device.auth.returned.lit", AltOf: "E8.device.auth.returned", Fn: "op.createDeviceAuthorization", P: []string{"ctx", "req", "clientID", "o"}, Kind: "ret ok", Pat: "ret(&DeviceAuthorizationResponse{VerificationURIComplete: _}, nil)", Max: 1,
+			Req: []string{"ok(_.StoreDeviceAuthorization(_, $clientID, _, _, _, $req.Scopes))"}},
+		{ID: "E8.device.auth.response-built-once", Fn: "op.createDeviceAuthorization", Kind: "store", Pat: "store(_, &DeviceAuthorizationResponse{})", Max: 1, Opt: true},
 		{ID: "E8.device.auth.complete-uri", Fn: "op.createDeviceAuthorization", Kind: "store", Pat: `store($v.RawQuery, "user_code=" + $uc)`, Max: 1,
 			Req: []string{"def($uc, op.NewUserCode(__), 0)"}},
 		{ID: "E8.device.auth.verification-on-issuer", Fn: "op.createDeviceAuthorization", Kind: "store", Pat: "store($v.Path, $cfg.UserFormPath)", Max: 1,
